@@ -235,7 +235,7 @@ Definition srv_server_stream (hdrs : list header) (reqs : list request) : wire :
 (* BidiStream, full-duplex receive loop after the first message fixed the definition: a request arrives; if no
    response is left the loop breaks (keeping that request as the only one since the last response), otherwise
    response resp_num goes out echoing it (headers only with response 0) and the pending list is reset. *)
-Fixpoint full_loop (hdrs : list header) (resp_num : nat) (datas : list bytes) (incoming : list request)
+Fixpoint full_loop (hdrs : list header) (resp_num : nat) (datas : list bytes) (incoming : list request) {struct incoming}
   : list payload * nat * list bytes * list any (* sent, resp_num, data not yet sent, requests since the last response *) :=
   match incoming with
   | [] => ([], resp_num, datas, [])
